@@ -19,7 +19,7 @@ DIMS = {
     "op": (["val", "grad", "divcurl", "dx0", "dxlast", "hess", "comp", "csum"], ["grad", "dx0", "comp"]),
     "factor": (["f"] + [x for x in forms.FACTORS if x != "f"], ["one", "fg", "c0", "sqrt", "cond", "gradf", "diam", "normal", "xpoly"]),
     "wrap": (["plain", "condarg", "sum2", "neg"], ["condarg", "sum2"]),
-    "quad": (["auto", "deg1", "deg6", "vertex", "GLL3", "two", "two1", "mix2", "same2", "cust1", "cust3"], ["deg1", "two", "two1"]),
+    "quad": (["auto", "deg1", "deg6", "vertex", "GLL3", "GLL1", "two", "two1", "mix2", "same2", "cust1", "cust3"], ["deg1", "two", "two1"]),
     "subdomain": (["all", "id", "tuple", "all+id"], ["tuple", "all+id"]),
     # interior-facet baseline: jump(test) x avg(trial) - all four macro blocks [+,-]x[+,-] are populated in EVERY dS configuration, so a wrong '-' offset of any
     # element kind shows at radius 1 (with the one-sided '++' baseline only the restriction deviations of P1 reached the '-' blocks)
